@@ -271,6 +271,11 @@ def check_property(pid, tier, seed, do_freeze=False, verbose=True):
         base = load_baseline(u)
         base_ok = set(base["functions_ok"]) if base else None
         funcs = r["functions"]
+        only_pats = spec.get("only_items", {}).get(u)
+        if only_pats is not None:
+            # this property shares the unit with others: only the obligations of its own items count
+            funcs = {n: f for n, f in funcs.items() if any(re.search(p_, n) for p_ in only_pats)}
+            r["functions_counted"] = funcs
         total_obl += len(funcs)
         total_ok += sum(1 for f in funcs.values() if f["ok"])
         for ud in r["undecided"]:
@@ -279,7 +284,7 @@ def check_property(pid, tier, seed, do_freeze=False, verbose=True):
             undecided.append((u, {"reason": "vacuity-control", "detail":
                                   "must-fail copy was not rejected: %s" % json.dumps(r["mustfail"])}))
         if base_ok is not None:
-            missing = [n for n in base_ok if n not in funcs]
+            missing = [n for n in base_ok if n not in r["functions"]]
             if missing and not r["undecided"]:
                 undecided.append((u, {"reason": "obligation-count", "detail":
                                       "obligations in the baseline were not generated: %s" % missing[:10]}))
@@ -368,8 +373,9 @@ def write_evidence(pid, spec, tier, seed, results, total_obl, total_ok, knowns_h
         for s in r.get("gen_text_scan", []) or []:
             assumptions.append("unit %s generated file contains: %s" % (r["unit"], s))
         e = by_engine.setdefault(r["engine"], {"obligations": 0, "discharged": 0, "solver_ms": 0})
-        e["obligations"] += len(r["functions"])
-        e["discharged"] += sum(1 for f in r["functions"].values() if f["ok"])
+        counted = r.get("functions_counted", r["functions"])
+        e["obligations"] += len(counted)
+        e["discharged"] += sum(1 for f in counted.values() if f["ok"])
         e["solver_ms"] += r.get("smt_ms", 0)
         names = sorted(r["functions"].keys())
         for n in names[:6]:
@@ -388,8 +394,8 @@ def write_evidence(pid, spec, tier, seed, results, total_obl, total_ok, knowns_h
             "refuted_known_findings": refuted_known,
             "checker_cmd": " ; ".join(c for c in cmds if c),
             "trusted_base": sorted(set(trusted)),
-            "units": [{"unit": r["unit"], "engine": r["engine"], "obligations": len(r["functions"]),
-                       "discharged": sum(1 for f in r["functions"].values() if f["ok"]),
+            "units": [{"unit": r["unit"], "engine": r["engine"], "obligations": len(r.get("functions_counted", r["functions"])),
+                       "discharged": sum(1 for f in r.get("functions_counted", r["functions"]).values() if f["ok"]),
                        "contract_clauses": r.get("clauses", 0),
                        "solver_ms": r.get("smt_ms", 0), "wall_s": r["wall_s"],
                        "vacuity_control": r.get("mustfail"),
